@@ -374,6 +374,32 @@ func c13(run *core.Run, replay string) {
 			}
 		}
 	}
+	// every block length 1..320 and a window around 1 KiB for every transform (thresholds such as 16, 64, 256, 1024 bytes, header sizes)
+	for ti, t := range kz.Transforms {
+		for n := 1; n <= 320; n++ {
+			add(trCase{T: t, Entropy: entVariants(t)[n%len(entVariants(t))], Shape: []string{"text", "runs", "dna", "skewed", "ffmix", "random"}[(n+ti)%6], Size: n, Seed: run.Seed + int64(n)})
+			if t == "ZRLT" || t == "RLT" || t == "MTFT" || t == "RANK" || t == "SRT" {
+				add(trCase{T: t, Entropy: "ANS0", Shape: "ffmix", Size: n, Seed: run.Seed*3 + int64(n), Slack: 8 * (n % 2)})
+			}
+		}
+		for n := 1000; n <= 1050; n++ {
+			add(trCase{T: t, Entropy: entVariants(t)[0], Shape: []string{"text", "cyrillic", "dna", "wav", "elfx86"}[(n+ti)%5], Size: n, Seed: run.Seed + int64(n)})
+		}
+	}
+	// shapes that stress table limits: long literal runs, huge vocabularies, escape-dense multimedia, uniform small alphabets
+	for _, tc := range [][2]string{{"LZ", "randtext"}, {"LZX", "randtext"}, {"LZP", "randtext"}, {"ROLZ", "randtext"}, {"ROLZX", "randtext"}, {"TEXT", "bigvocab"}, {"MM", "fsdstress"},
+		{"PACK", "alphau:16"}, {"PACK", "alphau:15"}, {"PACK", "alphau:17"}, {"PACK", "alphau:4"}, {"PACK", "alphau:3"}, {"PACK", "alphau:5"}, {"DNA", "alphau:4"}, {"RLT", "alphau:2"}, {"SRT", "alphau:256"}} {
+		for si, sz := range []int{1024, 4096, 65536, 100000, 280000, 1000003, 4096000} {
+			if sz > 1000003 && !(tc[1] == "randtext") {
+				continue
+			}
+			for _, ent := range entVariants(tc[0]) {
+				for _, slack := range []int{0, 16} {
+					add(trCase{T: tc[0], Entropy: ent, Shape: tc[1], Size: sz + si, Seed: run.Seed + int64(si), Slack: slack})
+				}
+			}
+		}
+	}
 	// content-specific transforms on the content they are made for: more sizes and instances (they decline on most other shapes)
 	affinity := map[string][]string{
 		"DNA":  {"dna"},
@@ -409,6 +435,15 @@ func c13(run *core.Run, replay string) {
 				}
 				add(trCase{T: tr, Pre: []string{"", "magic"}[i%2], Entropy: "ANS0", Shape: sh, Size: []int{64, 100, 512, 4096, 20000, 70000}[i%6], Seed: run.Seed*977 + int64(i)})
 			}
+		}
+	}
+	// multi-MiB skewed blocks for every transform: symbol frequencies, run lengths and distances above 2^21
+	for ti, t := range kz.Transforms {
+		for hi, sh := range []string{"zeros", "skewed", "longruns"} {
+			if !run.Thorough() && (ti+hi)%3 != 0 && t != "SRT" && t != "RLT" && t != "ZRLT" {
+				continue
+			}
+			add(trCase{T: t, Entropy: entVariants(t)[0], Shape: sh, Size: 4<<20 + 16 - hi*1000, Seed: run.Seed})
 		}
 	}
 	// the > 4 MiB regimes of BWT/BWTS (helper goroutines), and multi-MiB LZ/ROLZ
